@@ -29,7 +29,8 @@ RULE = ("one fitted model per case (all families/profiles) x a random history of
 ASSUMPTIONS = ["DatetimeIndex.freq of caller objects is recorded, not judged (cache-like metadata that pandas only lets agree with the values)",
                "model state is judged on what the statement names: the serialised form and the predictions (private caches are recorded, not judged)"]
 REQUIRED_REACH = {"predict.json_before_after": 25, "predict.history_vs_pristine": 25, "data.fit_fingerprint": 6, "data.predict_fingerprint": 25, "fit.model_added_disqualification": 1,
-                  "ctor.caller_frame_fingerprint": 20, "alias.df_probe": 6, "alias.prediction_probe": 6}
+                  "ctor.caller_frame_fingerprint": 20, "alias.df_probe": 6, "alias.prediction_probe": 6,
+                  "history.other_model_of_another_configuration_used_in_between": 6}
 
 VIOL = []
 CUR = {}
@@ -57,6 +58,29 @@ def model_json(fam, m):
 
 
 SPANS = {"day": 1, "week": 7, "month": 31, "partial": 140, "year": 365}
+
+
+def other_meter(fam, rng, tz):
+    """Another model of the same family with ANOTHER configuration is built, fitted and used in between (fleet processing):
+    nothing of it may reach the model under observation."""
+    import opendsm.eemeter as em
+    if fam.kind in ("daily", "billing"):
+        st = {"weekday_weekend": {"friday": "weekend", "sunday": "weekday"}, "season": {"april": "winter", "october": "summer"}}
+        df = FT.daily_baseline_df(rng, tz=tz, kind="both", n=120, noise=0.05, weekend=0.4)
+        m2 = em.DailyModel(settings=st).fit(em.DailyBaselineData(df, is_electricity_data=True), ignore_disqualification=True)
+        m2.predict(em.DailyReportingData(FT.daily_reporting_df(rng, tz, "2019-03-01", 40), is_electricity_data=True), ignore_disqualification=True)
+        em.DailyModel.from_json(m2.to_json())
+        em.BillingModel()
+    elif fam.kind == "hourly":
+        f2 = FT.Family("hourly:bins8:ghi" if not fam.ghi else "hourly:robust")
+        b2 = f2.baseline_frame(rng, tz=tz, days=135)
+        m2 = f2.fit(f2.new_model(seed=int(rng.integers(0, 99))), f2.baseline_data(b2))
+        f2.predict(m2, f2.reporting_data(f2.reporting_frame(rng, tz, "2019-02-01", 10)))
+    else:
+        f2 = FT.Family("caltrack")
+        b2 = f2.baseline_frame(rng, tz=tz, days=120)
+        m2 = f2.fit(f2.new_model(), f2.baseline_data(b2))
+        f2.predict(m2, f2.reporting_data(f2.reporting_frame(rng, tz, "2019-06-01", 10)))
 
 
 def run_model_case(spec, keys):
@@ -109,7 +133,13 @@ def run_model_case(spec, keys):
         order.append(("year", True))
     if fam.kind == "hourly":
         order = [("week", False), ("year", True), ("year", False), ("year", True)] + order     # short set first; same calendar with/without usage
+    # references first: the same calls on pristine copies, BEFORE any other model exists in this process
     ref_cache = {}
+    for key in dict.fromkeys(order):
+        try:
+            ref_cache[key] = fam.predict(copy.deepcopy(pristine), fam.reporting_data(sets[key].copy(deep=True)))
+        except Exception:
+            ref_cache[key] = None
     for step, key in enumerate(order):
         rdf = sets[key]
         rf0 = I.fp(rdf)
@@ -120,9 +150,15 @@ def run_model_case(spec, keys):
             sets[key] = rdf = fam.reporting_frame(rng, tz, str(rdf.index[0].date()), SPANS[key[0]], with_observed=key[1])
             rdata = fam.reporting_data(rdf)
         rd_before = data_fp(rdata)
-        if step % 3 == 1:                                           # interleave: global state perturbation / another meter
+        if step % 3 == 1:                                           # interleave: global state perturbation
             np.random.seed(int(rng.integers(0, 2 ** 31)))
             np.random.random(7)
+        if step % 3 == 2:                                           # interleave: another meter, another configuration, same process
+            try:
+                other_meter(fam, rng, tz)
+                I.reach("history.other_model_of_another_configuration_used_in_between")
+            except Exception:
+                I.reach("history.other_meter_raised_not_judged_here")      # the other meter's own failure is not this property's business
         try:
             p = fam.predict(m, rdata)
         except Exception as e:
@@ -148,13 +184,8 @@ def run_model_case(spec, keys):
                 add("predict-changed-serialised-model:%s:%s" % (fam.kind, ",".join(sorted(diff))[:80]),
                     "to_json() differs after predict on a %s set: fields %s" % (key[0], diff), fields=diff)
                 js0 = js1            # report each change once
-        # same call on the pristine copy
-        if key not in ref_cache:
-            try:
-                ref_cache[key] = fam.predict(copy.deepcopy(pristine), fam.reporting_data(sets[key]))
-            except Exception:
-                ref_cache[key] = None
-        ref = ref_cache[key]
+        # same call on the pristine copy (made before anything else happened in this process)
+        ref = ref_cache.get(key)
         if ref is not None:
             I.reach("predict.history_vs_pristine")
             dif = I.frame_equal_bits(ref, p)
